@@ -9,6 +9,10 @@ Contract on ExplorerScriptSsbCompiler.compile(text, ...) for every accepted prog
 `sem` (spec/sem.py) is written from docs/language_spec.rst (+ the decompiler's printers), `machine`/`equiv` from the text
 of the property (spec/machine.py).  Inputs: gen/programs.py (exhaustive skeleton families + seeded random programs).
 
+Context ops.  The LTS of both sides are refined by `bind_contexts`: a context op (lives / object / performer) carries
+whether the op that directly follows it is a Jump or an observable op (a Jump is silent for the control flow, but the
+context op applies to whatever follows it directly).
+
 Signatures.  When the top-level contract fails, the compilation is repeated with run-time monitors on the stages of
 compile() (visitor/handlers -> strip_last_label -> LabelFinalizer -> OpsLabelJumpToRemover): the intermediate op lists
 (labels still present) are run on the same machine model and compared with the specification; the *first* stage whose
@@ -25,6 +29,10 @@ output is not equivalent is the faulty one, and a structural monitor of that sta
                                                           (tags of one stage are joined with `+`)
     C01:label-finalizer:jump-removed-over-kept-op         a Jump is removed although ops that stay lie between it
                                                           and its label
+    C01:label-finalizer:jump-bound-to-context-op-removed  the Jump that is the statement of a with-block is removed
+                                                          (it targets the label right behind the block): the context
+                                                          op now applies to the op behind the label
+    C01:strip_last_label:jump-bound-to-context-op-became-Return / -deleted     same, by strip_last_label
     C01:<stage>:unclassified:<symptom>:<shape of the shrunk program>     anything the monitors do not explain
     C01:case-scenario:...                                 documented opcode deviation (CaseScenario for CaseValue)
     C01:header-*/alias-*/table-length/compile-raises:*    routine tables
@@ -152,7 +160,44 @@ def machine_labelled(routine_ops: list) -> tuple:
         if lid not in label_pos:
             raise MalformedRoutines(f"label {lid} is jumped to but not placed")
         nodes[("L", lid)] = Node("silent", (), (label_pos[lid],))
+    # context binding (see bind_contexts): the op that follows a context op in the list, labels are not ops
+    for ri, r in enumerate(routine_ops):
+        for idx, op in enumerate(r):
+            if isinstance(op, (SsbLabel, SsbLabelJump)) or op.op_code.name not in CTX_OPS:
+                continue
+            j = idx + 1
+            while j < len(r) and isinstance(r[j], SsbLabel):
+                j += 1
+            is_jump = j < len(r) and isinstance(r[j], SsbLabelJump) and r[j].root.op_code.name == "Jump"
+            n = nodes[("i", ri, idx)]
+            nodes[("i", ri, idx)] = Node("op", (n.label[0], n.label[1], ("binds", "jump" if is_jump else "op")), n.succ)
     return nodes, entries
+
+
+CTX_OPS = ("lives", "object", "performer")
+
+
+def bind_contexts(nodes: dict) -> dict:
+    """Refinement of the machine model for with-blocks / inline contexts: a context op (lives / object / performer)
+    applies to the op that DIRECTLY follows it (ssb_special_ops: "The next OP after these will be executed in the
+    context of an actor/object/performer"; docs: a with-block "runs a statement in the context of ..."), also when
+    that op is a Jump.  A Jump is silent for the behaviour of the routine, but whether the context op is bound to
+    a Jump (`with (actor 1) { jump @x; }`, break, continue, ...) or to an observable op is part of what the source
+    says.  The label of every context op gets a third component ("binds", "jump" | "op"): "jump" iff its immediate
+    successor is a silent jump node (label nodes of the reference semantics are looked through).  Applied to the
+    LTS of the compiled ops and of the reference semantics alike before `equiv`."""
+    from spec.machine import Node
+
+    out = dict(nodes)
+    for nid, n in nodes.items():
+        if n.kind == "op" and n.label and n.label[0] in CTX_OPS and len(n.label) == 2:
+            s = n.succ[0]
+            seen = set()
+            while nodes[s].kind == "silent" and isinstance(s, tuple) and s and s[0] == "L" and s not in seen:
+                seen.add(s)
+                s = nodes[s].succ[0]
+            out[nid] = Node("op", (n.label[0], n.label[1], ("binds", "jump" if nodes[s].kind == "silent" else "op")), n.succ)
+    return out
 
 
 def _reachable(nodes: dict, entry: Any) -> set:
@@ -183,10 +228,17 @@ def _strip_tags(pre: list, post: list, rid: int) -> list:
                 continue
             after = post_by_offset.get(op.offset)
             is_jump = op.root.op_code.name == "Jump"
+            prev = routine[idx - 1] if idx > 0 else None
+            in_ctx = prev is not None and not isinstance(prev, (SsbLabel, SsbLabelJump)) and prev.op_code.name in CTX_OPS
             if after is None:
                 tags.add("reachable-jump-deleted" if is_jump else "cond-jump-deleted")
+                if is_jump and in_ctx:
+                    tags.add("jump-bound-to-context-op-deleted")
             elif not isinstance(after, SsbLabelJump) and not is_jump:
                 tags.add("cond-jump-became-Return")
+            elif not isinstance(after, SsbLabelJump) and is_jump and in_ctx:
+                # `with (actor X) { jump @end; }`: the context op now applies to a Return op
+                tags.add("jump-bound-to-context-op-became-Return")
     return sorted(tags)
 
 
@@ -201,6 +253,10 @@ def _finalizer_tags(post: list, fin: list, rid: int) -> list:
             continue
         if not (isinstance(op, SsbLabelJump) and op.root.op_code.name == "Jump"):
             return ["non-jump-removed"]
+        prev = r[i - 1] if i > 0 else None
+        if prev is not None and not isinstance(prev, (SsbLabel, SsbLabelJump)) and prev.op_code.name in CTX_OPS:
+            # the jump is the statement of a with-block; without it the context op applies to the op behind the label
+            return ["jump-bound-to-context-op-removed"]
         between = []
         for j in range(i + 1, len(r)):
             if isinstance(r[j], SsbLabel):
@@ -230,6 +286,7 @@ def classify(text: str, prog: Any, rid: int, symptom: str, case_scenario: bool) 
     except Exception:  # noqa: BLE001
         return [f"unlocated:unclassified:{symptom}"]
     nodes, entries, headers = S.sem(prog, PERF, case_scenario=case_scenario)
+    nodes = bind_contexts(nodes)
     e = entries[[h["id"] for h in headers].index(rid)]
 
     lts: dict = {"sem": (nodes, e)}
@@ -241,7 +298,7 @@ def classify(text: str, prog: Any, rid: int, symptom: str, case_scenario: bool) 
             lts[key] = None
     try:
         mn, me = machine(cap["compiler"].routine_ops)
-        lts["final"] = (mn, me[rid])
+        lts["final"] = (bind_contexts(mn), me[rid])
     except MalformedRoutines:
         lts["final"] = None
 
@@ -385,6 +442,7 @@ def analyse(prog: Any, text: Optional[str] = None, selfcheck_roundtrip: bool = T
     except MalformedRoutines as e:
         out.problems.append(("malformed-output", str(e)))
         return out
+    mn, nodes = bind_contexts(mn), bind_contexts(nodes)
     nodes_alt = None
     for idx, (e, h) in enumerate(zip(entries, headers)):
         rid = h["id"]
@@ -414,13 +472,14 @@ def analyse(prog: Any, text: Optional[str] = None, selfcheck_roundtrip: bool = T
                 out.problems.append(("case-scenario:CaseScenario-for-CaseValue-under-SwitchScenario", f"routine {rid}: " + describe_path(path)))
                 if nodes_alt is None:
                     nodes_alt = S.sem(prog, PERF, case_scenario=True)
+                    nodes_alt = (bind_contexts(nodes_alt[0]),) + tuple(nodes_alt[1:])
                 path = equiv(mn, me[rid], nodes_alt[0], nodes_alt[1][idx])
             out.checked_routines += 1
         except OpFreeCycle:
             out.skipped_routines += 1
             continue
         if path is not None:
-            for core in classify(text, prog, rid, _symptom(path), nodes_alt is not None):
+            for core in classify(text, prog, rid, _symptom(path), True):
                 out.problems.append((core, f"routine {rid}: " + describe_path(path)))
     return out
 
